@@ -34,7 +34,7 @@ LEVEL_TEXT = (
 def gen_specs(rng: random.Random, tier: str, n: int) -> list[dict]:
     specs = []
     for i in range(n):
-        cfg = _ds.rand_cfgspec(rng, max_n=8 if tier == "thorough" else 7, max_mazes=16 if tier == "thorough" else 10, filters=False, rich_endpoints=True)
+        cfg = _ds.rand_cfgspec(rng, max_n=8 if tier == "thorough" else 7, max_mazes=16 if tier == "thorough" else 10, filters=False, rich_endpoints=True, big_mazes=0.05)
         hist = []
         for _ in range(rng.choice([0, 0, 1, 1, 2])):
             hist.append(
